@@ -74,9 +74,12 @@ func (x *c12) enumSize() uint64 {
 	if err != nil {
 		trouble(x.e, "enum-size: %v %s", err, out)
 	}
-	var n uint64
-	fmt.Sscan(strings.TrimSpace(out), &n)
-	return n
+	var pairs, total uint64
+	fmt.Sscan(strings.TrimSpace(out), &pairs, &total)
+	if x.e.tier == "thorough" {
+		return total // pairs on every layout, then triples on the key layouts
+	}
+	return pairs
 }
 
 func (x *c12) build() {
@@ -839,7 +842,7 @@ func mainC12(e *env) {
 	if en.troubleS != "" {
 		trouble(e, "%s", en.troubleS)
 	}
-	fmt.Printf("  enumeration: %d histories (layout x op x op) in %.1fs, %d failing\n", en.runs, time.Since(t0e).Seconds(), len(en.failures))
+	fmt.Printf("  enumeration: %d histories (layout x ops) in %.1fs, %d failing\n", en.runs, time.Since(t0e).Seconds(), len(en.failures))
 
 	a := newAgg12()
 	a.failures = append(a.failures, en.failures...)
@@ -932,7 +935,7 @@ func mainC12(e *env) {
 		"samples":                     x.samples(2),
 		"histories_per_hour":          float64(a.runs) / hours,
 		"enumerated_histories":        en.runs,
-		"enumeration_rule":            "every ordered pair of the canonical operations applied to every canonical layout of a small initial file (quick: a seed-chosen quarter of that space; thorough: all of it)",
+		"enumeration_rule":            "every ordered pair of the canonical operations applied to every canonical layout of a small initial file (quick: a seed-chosen quarter of the pairs; thorough: all pairs, then every ordered triple on twelve key layouts)",
 		"seeds":                       a.runs,
 		"simulated_time_steps":        a.ops,
 		"effective_edits":             a.effective,
